@@ -285,6 +285,7 @@ package internal
 //@   loop 4 invariant providers-loop: $FUNCSOK && !dup
 //@   loop 5 invariant receivers-loop: $FUNCSOK && !dup
 //@   loop 6 invariant [C14] duplicate-provider-was-reported: !dup && $FUNCSOK
+//@   at call scheduleFlowAndToposort 1 pre assume unproved-flow-functions-are-distinct-objects-and-providers-index-them: forall(i, int, implies(0 <= i && i < len(flow.Funcs), forall(i2, int, implies(0 <= i2 && i2 < len(flow.Funcs) && i != i2, flow.Funcs[i] != flow.Funcs[i2])))) && forall(t, int, implies(typeof(tmapAt(flow.providers, t)) == typeid("int"), 0 <= dataof(tmapAt(flow.providers, t)) && dataof(tmapAt(flow.providers, t)) < len(flow.Funcs)))
 //@   at call Set 5 assume providers-hold-function-indices: ret == nil || (typeof(ret) == typeid("int") && 0 <= dataof(ret) && dataof(ret) < len(flow.Funcs))
 //@   at call Set 5 ghost dup = ret != nil
 //@   at call errf 6 ghost dup = false
@@ -375,3 +376,14 @@ package internal
 //@   at store DependsOn 1 ghost v[idx2] = len(target.DependsOn) - 1
 //@   at call toposort 1 assume unproved-toposort-returns-node-indices: forall(j, int, implies(0 <= j && j < len(ret), 0 <= ret[j] && ret[j] < len(f.Funcs)))
 //@   ensures [C01,C02,C11] every-function-depends-on-the-provider-of-each-of-its-dependencies: forall(i, int, implies(0 <= i && i < len(f.Funcs), forall(k, int, implies(0 <= k && k < len(f.Funcs[i].Dependencies) && $HASPROVI, exists(j, int, 0 <= j && j < len(f.Funcs[i].DependsOn) && f.Funcs[i].DependsOn[j] == f.Funcs[$PROVI])))))
+
+// ---------------------------------------------------------------------------
+// C13 sweep, remaining entry functions of the compiler.
+
+//@ func (*compiler).compileInstrumentName
+//@   option props=[C13]
+//@   requires c != nil
+
+//@ func (*compiler).CompileFile
+//@   option props=[C13]
+//@   requires $C && file != nil
